@@ -586,6 +586,10 @@ func (f *Formatter) renderOpenTag(n *html.Node) string {
 
 	for _, attr := range n.Attr {
 		buf.WriteString(" ")
+		if attr.Namespace != "" {
+			// xlink:href, xml:lang ... in SVG and MathML
+			buf.WriteString(attr.Namespace + ":")
+		}
 		buf.WriteString(attr.Key)
 		if attr.Val != "" {
 			buf.WriteString("=\"")
